@@ -2,7 +2,7 @@
    bool, option, list, prod, unit, sumbool map to OCaml's; nat, positive, Z, N stay
    the extracted inductives).  Compiled from build/model, not part of the proof build. *)
 From Coq Require Import ExtrOcamlBasic List ZArith.
-From OmplV Require Import HeapModel MotionModel PtcModel SeedModel SolModel GridModel NNModel CodecModel VssModel LedgerModel PisModel PathModel ControlModel.
+From OmplV Require Import HeapModel MotionModel PtcModel SeedModel SolModel GridModel NNModel CodecModel VssModel LedgerModel PisModel PathModel ControlModel PhsModel.
 Extraction Language OCaml.
 Extraction "model.ml" HeapModel.step HeapModel.run HeapModel.pop_all_e HeapModel.sort_keys HeapModel.find_pos
   MotionModel.check_lin MotionModel.check_bis MotionModel.check_bis_nocount MotionModel.check_states MotionModel.states_lin
@@ -17,6 +17,7 @@ Extraction "model.ml" HeapModel.step HeapModel.run HeapModel.pop_all_e HeapModel
   CodecModel.store_states CodecModel.load_states CodecModel.store_pd CodecModel.load_pd CodecModel.mark_start CodecModel.mark_goal CodecModel.add_vertex
   CodecModel.vtype CodecModel.pd_empty CodecModel.binary_search CodecModel.leaf_kinds
   VssModel.vss_run
+  PhsModel.rejection_sample PhsModel.rejection_sample_minmax PhsModel.direct_sample PhsModel.direct_sample_minmax
   ControlModel.pwv_run ControlModel.cadjudicate
   PathModel.interp_counts PathModel.total_states PathModel.subdivide_counts
   PisModel.qstep PisModel.qrun PisModel.drain_starts
